@@ -138,6 +138,12 @@ class SequentialPlanValidator(engines.engine.Engine, mixins.PlanValidatorMixin):
                 raise UPProblemDefinitionError(
                     "The UP does not support more than one quality metric in the problem."
                 )
+        if metric is not None and (
+            metric.is_minimize_makespan() or metric.is_temporal_oversubscription()
+        ):
+            # Temporal metrics have no value on a sequential plan. A metric predicates over
+            # the optimality of the plan, not over its validity, so it is not evaluated.
+            metric = None
         # To support infinite domain action's parameters the checks on the simulator must be disabled
         # and, if the problem is not supported for different reasons, re-raise the warning/exception
         with warnings.catch_warnings(record=True) as _:
